@@ -20,13 +20,13 @@ fn applicable(s: Solver, f: Family) -> bool {
 fn main() {
     let ctx = Ctx::from_args("C09");
     ctx.level("exploration");
-    ctx.rule("E1: six families (1-D Laplacian, arrowhead SPD, symmetric indefinite dominant, nonsymmetric dominant with mixed-sign diagonal, upwind convection-diffusion, scattered dominant) x orders {1,2,3,5,8,13,21,34,60} (quick to 34) x 7 construction paths of the sparse matrix (3 triplet orders, entry-by-entry inserts, double transpose, overwrite + scale, explicitly stored zeros) x right-hand sides {A x*, 0, 1e6 A x*} x guesses {0, exact solution, fixed non-zero} x tol {1e-12,1e-8,1e-3} x solvers (CG on the SPD families; BiCG itol 1/2, BiCGSTAB, QMR on the strictly diagonally dominant ones), every combination. Oracle: Ok(k) with k <= 6n+30; ||x - x_direct||_inf <= 10 tol ||A^-1||_inf ||b||_2 + 100 cond eps ||x|| with x_direct and the inverse from an independent dense LU; exact guess and zero/zero start => Ok with finite x. Plus every symmetric strictly dominant matrix with positive diagonal (SPD) of order 4 over 3 letters (quick) / order 4 over 5, order 5 over 3, order 6 over 2 letters (thorough), each through one of the 7 construction paths, 3 rhs x 3 guesses x 2 tolerances, all five solvers. Non-trivial: nonsymmetric systems, exact-guess starts, zero right-hand sides, orders >= 13.");
+    ctx.rule("E1: six families (1-D Laplacian, arrowhead SPD, symmetric indefinite dominant, nonsymmetric dominant with mixed-sign diagonal, upwind convection-diffusion, scattered dominant) x orders {1,2,3,5,8,13,21,34,60} (quick: 18 orders up to 34 covering every residue mod 8) x 7 construction paths of the sparse matrix (3 triplet orders, entry-by-entry inserts, double transpose, overwrite + scale, explicitly stored zeros) x right-hand sides {A x*, 0, 1e6 A x*} x guesses {0, exact solution, fixed non-zero} x tol {1e-12,1e-8,1e-3} x solvers (CG on the SPD families; BiCG itol 1/2, BiCGSTAB, QMR on the strictly diagonally dominant ones), every combination. Oracle: Ok(k) with k <= 6n+30; ||x - x_direct||_inf <= 10 tol ||A^-1||_inf ||b||_2 + 100 cond eps ||x|| with x_direct and the inverse from an independent dense LU; exact guess and zero/zero start => Ok with finite x. Plus every symmetric strictly dominant matrix with positive diagonal (SPD) of order 4 over 3 letters (quick) / order 4 over 5, order 5 over 3, order 6 over 2 letters (thorough), each through one of the 7 construction paths, 3 rhs x 3 guesses x 2 tolerances, all five solvers. Non-trivial: nonsymmetric systems, exact-guess starts, zero right-hand sides, orders >= 13.");
     ctx.assume("all matrix and vector data are small dyadic rationals, so the exact guess has an exactly zero residual in f64");
     ctx.assume("the iteration bound 6n+30 and the accuracy slack are calibrated on the repaired tree (worst observed values are recorded)");
     ctx.threshold("iterations_over_cap", 1.0);
     ctx.threshold("error_over_bound", 1.0);
     ctx.require(&["nonsymmetric system", "exact initial guess", "zero right-hand side with zero guess", "order >= 13", "n = 1"]);
-    let sizes: Vec<usize> = if ctx.quick() { vec![1, 2, 3, 5, 8, 13, 21, 34] } else { vec![1, 2, 3, 4, 5, 6, 7, 8, 10, 13, 16, 21, 27, 34, 47, 60] };
+    let sizes: Vec<usize> = if ctx.quick() { vec![1, 2, 3, 4, 5, 6, 7, 8, 9, 12, 13, 16, 17, 20, 21, 24, 32, 34] } else { vec![1, 2, 3, 4, 5, 6, 7, 8, 10, 13, 16, 21, 27, 34, 47, 60] };
     let mut cases = vec![];
     for &n in &sizes {
         for f in FAMILIES.iter() {
